@@ -20,7 +20,7 @@ SamplesFor(c, n) == n * SPB(c) * c.B                         \* antenna samples 
 Drawn(c, n) == SamplesFor(c, n) + c.taps * c.B               \* + one warm-up window
 
 (* durations (k + r) * time_per_block with r = rn/rd in [0, 1): whole blocks not exceeding the duration *)
-Fracs == {<<0, 1>>, <<1, 4>>, <<1, 2>>, <<999, 1000>>}
+Fracs == {<<0, 1>>, <<1, 4>>, <<1, 2>>, <<999, 1000>>, <<99999, 100000>>}   \* the last: a hair short of a block boundary
 BlocksFor(k, r) == IF r[1] = 0 THEN {k, k - 1} \cap Nat ELSE {k}      \* on the boundary either way (float rounding)
 
 (* get_block_size for a desired number of fine spectra per block *)
@@ -38,7 +38,8 @@ Compute ==
                total |-> SamplesFor(cfg, cfg.blocks), drawn |-> Drawn(cfg, cfg.blocks),
                pktstop |-> cfg.blocks * SPB(cfg),
                obsLength |-> <<cfg.blocks * SPB(cfg) * cfg.B, cfg.rate>>,
-               durations |-> [x \in {<<k, r>> : k \in {1, 2, cfg.blocks + 2}, r \in Fracs} |->
+               \* durations also of long recordings (k * rd stays below 2^31)
+               durations |-> [x \in {<<k, r>> : k \in {1, 2, cfg.blocks + 2, 5000, 20000}, r \in Fracs} |->
                                  [k |-> x[1], rn |-> x[2][1], rd |-> x[2][2], blocks |-> BlocksFor(x[1], x[2])]],   \* duration = (k + rn/rd) * tpb
                fine |-> [f \in FineCases |-> [blockSize |-> HelperBlockSize(cfg, f), spb |-> f[1] * f[2] * f[3]]]]
     /\ phase' = "done" /\ UNCHANGED cfg
